@@ -3051,6 +3051,16 @@ class Interp:
             if any(x is None for x in seqs) or not isinstance(kwargs.get('repeat', 1), int):
                 return (TOP,)
             return (Iter(list(_it.product(*seqs, repeat=kwargs.get('repeat', 1)))),)
+        if ext in ('itertools.accumulate', 'accumulate') and 1 <= len(args) <= 2 and set(kwargs) <= {'initial'}:
+            seq = self._seq_in(args[0], s)
+            if seq is not None and all(_plain(x) for x in seq) and (len(args) == 1 or (callable(args[1]) and getattr(args[1], '__module__', '') in ('_operator', 'operator', 'builtins'))) \
+               and _plain(kwargs.get('initial')):
+                import itertools as _it
+                try:
+                    return (Iter(list(_it.accumulate(seq, *args[1:], **kwargs))),)
+                except Exception:
+                    return None
+            return None
         if ext in ('itertools.islice', 'islice') and len(args) in (2, 3, 4) and not kwargs and all(a is None or isinstance(a, int) for a in args[1:]):
             import itertools as _it
             if isinstance(args[0], (LazyGen, GenObj)):
